@@ -19,7 +19,7 @@ for sid in args:
     assert subprocess.run("git -C /repo status --porcelain", shell=True, capture_output=True, text=True).stdout.strip() == "", "/repo not clean"
     checks = {}
     try:
-        rc, out = sh(f"git apply {d}/patch.diff", "/repo"); assert rc == 0, out
+        rc, out = sh(f"git apply {d}/patch.diff || git apply -3 {d}/patch.diff", "/repo"); assert rc == 0, out
         for p in props:
             if p != primary and "--all-props" not in sys.argv:
                 checks[p] = meta["check_results"][p]; continue
@@ -31,7 +31,7 @@ for sid in args:
                 first = [l for l in out.splitlines() if l.startswith(("VIOLATION", "OK ", "INCONCLUSIVE"))][:1]
                 checks[p]["thorough_exit"] = rc; checks[p]["thorough"] = first[0] if first else ""
     finally:
-        subprocess.run("git -C /repo checkout -- . && git -C /repo clean -fdq", shell=True)
+        subprocess.run("git -C /repo reset -q --hard HEAD && git -C /repo clean -fdq", shell=True)
     meta["check_results"] = checks
     json.dump(meta, open(f"{d}/meta.json", "w"), indent=1)
     subprocess.run(f"rm -rf /verif/replays/{primary}", shell=True)
